@@ -80,4 +80,104 @@ def ARel {β : Type} (enc : β → PyVal) (kvs : List (PyVal × PyVal)) (d : Lis
 def DictRel (kvs : List (PyVal × PyVal)) (d : Dict) : Prop := ARel encVal kvs d
 def UnparsedRel (kvs : List (PyVal × PyVal)) (u : Unparsed) : Prop := ARel encUList kvs u
 
+/-! ## `_get_payload` with the message as state -/
+
+
+def runS {α : Type} (x : SM α) (m : PyVal) : Except PyExc α × PyVal := (ExceptT.run x).run m
+
+theorem runSM_eq (x : SM PyVal) (m : PyVal) : runSM x m = runS x m := rfl
+theorem runS_bind {α β : Type} (x : SM α) (f : α → SM β) (m : PyVal) :
+    runS (x >>= f) m = match runS x m with
+      | (.ok a, m') => runS (f a) m'
+      | (.error e, m') => (.error e, m') := by
+  simp only [runS, bind, ExceptT.bind, ExceptT.run, ExceptT.mk, StateT.bind, StateT.run]
+  cases h : x m with
+  | mk a s => cases a <;> rfl
+theorem runS_pure {α : Type} (a : α) (m : PyVal) : runS (pure a : SM α) m = (.ok a, m) := rfl
+theorem runS_throw {α : Type} (e : PyExc) (m : PyVal) : runS (throw e : SM α) m = (.error e, m) := rfl
+theorem runS_get (m : PyVal) : runS (get : SM PyVal) m = (.ok m, m) := rfl
+theorem runS_set (v m : PyVal) : runS (set v : SM PUnit) m = (.ok ⟨⟩, v) := rfl
+theorem runS_lift {α : Type} (x : M α) (m : PyVal) : runS (liftM x : SM α) m = (x, m) := rfl
+theorem runS_tryCatch {α : Type} (x : SM α) (h : PyExc → SM α) (m : PyVal) :
+    runS (tryCatch x h) m = match runS x m with
+      | (.ok a, m') => (.ok a, m')
+      | (.error e, m') => runS (h e) m' := by
+  simp only [runS, tryCatch, tryCatchThe, MonadExceptOf.tryCatch, ExceptT.tryCatch, ExceptT.run, ExceptT.mk, StateT.bind, StateT.run, bind]
+  cases h : x m with
+  | mk a s => cases a <;> rfl
+
+/-- the message after `del msg["content-transfer-encoding"]` -/
+def delCTE (fs : List (String × PyVal)) (hs : List PyVal) : PyVal :=
+  .obj "Message" (setField fs "headers" (.list (hs.filter fun x =>
+    lowerStr (headerName x) != lowerStr (ofString "content-transfer-encoding"))))
+
+theorem x9_isinstance_bytes (b : List Nat) : isinstance (PyElf.ofBytes b) ["bytes"] = true := by rfl
+theorem x9_isinstance_bytes_str (b : List Nat) : isinstance (PyElf.ofBytes b) ["str"] = false := by rfl
+theorem x9_isinstance_str_bytes (s : Str) : isinstance (.str s) ["bytes"] = false := by rfl
+
+/-- `_get_payload(msg, source)` for a `str` source: the outcome of the model's `getPayload`; the message is unchanged -/
+theorem _get_payload__io_eq_model_str (fs : List (String × PyVal)) (src : Str) (v : PyVal) (p : Payload)
+    (hp : lookupField fs "payload" = some v) (hv : PayRelStr v p) :
+    runSM (Gen.PySrc._get_payload__io (.str src)) (.obj "Message" fs) =
+      ((match getPayload p with
+        | .ok s => .ok (.str s)
+        | .error c => .error (toStringLossy c)), .obj "Message" fs) := by
+  unfold Gen.PySrc._get_payload__io
+  simp only [x7_isinstance_str, truthy_bool, if_true, runSM_eq, runS_bind, runS_get, runS_lift,
+    msg_get_payload, Bool.false_eq_true, if_false, getattr_obj, hp, pure_ok]
+  rcases hv with ⟨s, rfl, rfl⟩ | ⟨rfl, h⟩
+  · simp only [x7_isinstance_str, Bool.not_true, Bool.false_eq_true, if_false, runS_pure, getPayload]
+  · simp only [h, Bool.not_false, if_true, runS_bind, runS_throw, getPayload]
+    rfl
+
+/-- `_get_payload(msg, source)` for a source that is not a `str`: the `Content-Transfer-Encoding` headers are deleted from the
+message (also when the call raises), then `get_payload(decode=True)` must be `bytes`, decoded strictly as UTF-8 -/
+theorem _get_payload__io_eq_model_bytes (fs : List (String × PyVal)) (hs : List PyVal) (source v : PyVal) (p : Payload)
+    (hsrc : isinstance source ["str"] = false)
+    (hh : lookupField fs "headers" = some (.list hs)) (hd : lookupField fs "decoded" = some v) (hv : PayRelBytes v p) :
+    runSM (Gen.PySrc._get_payload__io source) (.obj "Message" fs) =
+      ((match getPayload p with
+        | .ok s => .ok (.str s)
+        | .error c => .error (toStringLossy c)), delCTE fs hs) := by
+  unfold Gen.PySrc._get_payload__io
+  have hdel : msg_del (.obj "Message" fs) (.str (ofString "content-transfer-encoding")) = .ok (delCTE fs hs) := by
+    simp [msg_del, msgHeaders, hh, delCTE]
+  have hget : msg_get_payload (delCTE fs hs) (.bool true) = .ok v := by
+    simp only [delCTE, msg_get_payload, truthy_bool, if_true, hasHeader_after_del "Message" fs hs _ hh, Bool.false_eq_true, if_false,
+      getattr_obj, lookupField_setField']
+    simp [hd]
+  simp only [hsrc, truthy_bool, if_true, runSM_eq, runS_bind, runS_get, runS_lift, runS_set,
+    Bool.false_eq_true, if_false, hdel, hget]
+  rcases hv with ⟨b, rfl, rfl, hb256⟩ | ⟨rfl, h⟩
+  · have hb : PyElf.bytesOf (PyElf.ofBytes b) = some b := PyElf.bytesOf_ofBytes b hb256
+    simp only [x9_isinstance_bytes, Bool.not_true, Bool.false_eq_true, if_false, bytes_decode_utf8, hb, getPayload]
+    cases utf8Decode b with
+    | some s => rfl
+    | none => rfl
+  · simp only [h, Bool.not_false, if_true, runS_bind, runS_throw, getPayload]
+    rfl
+
+
+/-- `_get_payload(msg, source)` on a message that presents `doc`: the model's outcome, and the message afterwards -/
+theorem _get_payload__io_eq_model (m data : PyVal) (doc : Doc) (isStr : Bool) (hm : MsgRel m doc isStr)
+    (hdata : if isStr then ∃ s, data = .str s else ∃ b, data = PyElf.ofBytes b) :
+    ∃ fs, m = .obj "Message" fs ∧ lookupField fs "headers" = some (.list (encHdrs doc)) ∧
+      runSM (Gen.PySrc._get_payload__io data) m =
+        ((match getPayload doc.payload with
+          | .ok s => .ok (.str s)
+          | .error c => .error (toStringLossy c)), if isStr then m else delCTE fs (encHdrs doc)) := by
+  obtain ⟨fs, rfl, hh, hp⟩ := hm
+  refine ⟨fs, rfl, hh, ?_⟩
+  cases isStr with
+  | true =>
+    simp only [if_true] at hp hdata ⊢
+    obtain ⟨v, hv, hr⟩ := hp
+    obtain ⟨s, rfl⟩ := hdata
+    exact _get_payload__io_eq_model_str fs s v doc.payload hv hr
+  | false =>
+    simp only [Bool.false_eq_true, if_false] at hp hdata ⊢
+    obtain ⟨v, hv, hr⟩ := hp
+    obtain ⟨b, rfl⟩ := hdata
+    exact _get_payload__io_eq_model_bytes fs _ _ v doc.payload (x9_isinstance_bytes_str b) hh hv hr
+
 end Src
